@@ -188,6 +188,8 @@ def exact_special_cases(ctx, rule="C17.exact-cases"):
                 for a, v in fs:
                     r_ = rel(a, v)
                     exact = r_ is not None and r_[0] == "==" and any(isinstance(x, ast.Constant) and x.value == 0 for x in (r_[1], r_[2]))
+                    if isinstance(a, ast.Subscript) and v is False:
+                        exact = True        # `if not U[m, n]:` - the truth value of the element itself is an exact zero test
                     if not exact:
                         bad = a
                 ok = bad is None
